@@ -185,6 +185,7 @@ type Result struct {
 	Matched  bool
 	End      int
 	Val      string // canonical
+	Flat     string // rtapi.Flat of the value
 	Errs     []ErrRec
 	Log      []rtapi.Event
 	Evals    int
@@ -325,6 +326,7 @@ func Run(g *Grammar, in []byte, script map[int]*rtapi.Block, o Options) (res *Re
 	res.Matched, res.End = ok, end
 	if ok {
 		res.Val = rtapi.Canon(val)
+		res.Flat = rtapi.Flat(val)
 	} else {
 		res.Val = "nil"
 		if len(ip.errs) == 0 {
@@ -721,6 +723,7 @@ func (ip *Interp) block(e *Expr, start, cur int, text string, env map[string]any
 	for i, a := range e.Args {
 		args[i] = env[a]
 		ev.Labels = append(ev.Labels, rtapi.Canon(args[i]))
+		ev.Flats = append(ev.Flats, rtapi.Flat(args[i]))
 	}
 	if ip.O.HasState {
 		ev.State = ip.st.canon()
@@ -768,7 +771,7 @@ func (ip *Interp) block(e *Expr, start, cur int, text string, env map[string]any
 	case rtapi.KAction:
 		switch blk.Ret {
 		case rtapi.RetP:
-			val = &rtapi.PVal{ID: e.ID, Text: text, Off: start, Labels: ev.Labels}
+			val = &rtapi.PVal{ID: e.ID, Text: text, Off: start, Labels: ev.Labels, Flats: ev.Flats}
 		case rtapi.RetText:
 			val = text
 		case rtapi.RetLabel:
